@@ -181,6 +181,7 @@ def reference_model(pm: ProgramModel, mb: ModelBuilder) -> AObj:
     # the same attribute (name and value) on several features: each feature has its own
     cash._f["attributes"].append(mb.attribute("fee", 2, cash))
     cash._f["attributes"].append(mb.attribute("deprecated", None, cash))
+    cash._f["attributes"].append(mb.attribute("code", "10", cash))          # a string that looks like a number
     coin._f["attributes"].append(mb.attribute("deprecated", None, coin))
     n, o = mb.node, mb.op
     cs = [
